@@ -236,10 +236,7 @@ def r7(ctx):
     if len(rec) != 1:
         raise AnalysisBroken('qb_rb_chunk_alloc: reclaim calls=%d' % len(rec))
 
-    def can_fit(a, fb):
-        # len (+ margin) <= something measured on the whole ring (its word_size)
-        return a.op in ('<=', '<') and any(n.get('k') == 'var' and n['n'] == lenp for n in walk(a.l)) and \
-            any(n.get('k') == 'mem' and n.get('f') == 'word_size' for n in walk(a.r)) and not has_call(a.r, 'qb_rb_space_free')
+    can_fit = c07.len_bounded_pred(f, lenp)
     ctx.check('R7', 'never-fitting-write-refused-before-reclaim', f.uncut_path(rec[0], can_fit) is None, rec[0],
               'old chunks are dropped only for a chunk that the empty ring could hold',
               'the make-room loop drops chunk after chunk for a request larger than the whole ring and fails only when none is left: '
